@@ -583,3 +583,63 @@ def rule_modes(ctx: Ctx) -> List[Ob]:
                   "; ".join(f"{k}: raises={v[0]}, continues={v[1]}, updater={sorted(v[2])}" for k, v in kinds_def.items()),
                   construct="ScalarFunction.__init__[grad mode]"))
     return obs
+
+
+@rule("GETB", min_instances=1)
+def rule_getb(ctx: Ctx) -> List[Ob]:
+    """the box the solver works in is the caller's: get_bounds converts the (min, max) pairs with SciPy's
+    old_bound_to_new, or replaces a side by infinity only when that side `is None` -- never on its truth value
+    (0 is a bound), and never changes a finite side"""
+    f = ctx.repo.func("base.get_bounds")
+    obs: List[Ob] = []
+    rets = [r for r in walk_no_nested(f.node) if isinstance(r, ast.Return) and r.value is not None]
+    need(len(rets) >= 1, "GETB: get_bounds has no return")
+    bp = f.params[1] if len(f.params) > 1 else "bounds"
+    conv = [s for s in walk_no_nested(f.node) if isinstance(s, ast.Assign) and isinstance(s.value, ast.Call)
+            and (dotted(s.value.func) or "").split(".")[-1] == "old_bound_to_new"]
+    if conv:
+        ok = all(len(s.value.args) == 1 and src(s.value.args[0]) == bp for s in conv)
+        obs.append(ob("GETB", "bounds are converted by SciPy's old_bound_to_new applied to the caller's pairs", f, conv[0], ok,
+                      f"{short(conv[0])}", construct="lb, ub = old_bound_to_new(bounds)"))
+        return obs
+    # explicit conversion: look at every infinity literal and every truth-value test on a bound value
+    bad, good = [], 0
+    parents = {id(c): p for p in ast.walk(f.node) for c in ast.iter_child_nodes(p)}
+
+    def is_inf(e) -> bool:
+        e2 = e.operand if isinstance(e, ast.UnaryOp) and isinstance(e.op, (ast.USub, ast.UAdd)) else e
+        return (dotted(e2) or "") in ("np.inf", "math.inf", "numpy.inf") or \
+            (isinstance(e2, ast.Call) and dotted(e2.func) == "float" and e2.args and isinstance(e2.args[0], ast.Constant)
+             and str(e2.args[0].value).lower().lstrip("+-") in ("inf", "infinity"))
+    for e in ast.walk(f.node):
+        if isinstance(e, ast.BoolOp) and isinstance(e.op, ast.Or) and any(is_inf(v) for v in e.values[1:]):
+            bad.append((e, f"`{short(e)}`: a side is replaced by infinity whenever it is falsy -- a bound equal to 0 is lost"))
+        elif isinstance(e, ast.IfExp) and (is_inf(e.body) or is_inf(e.orelse)):
+            t = e.test
+            while isinstance(t, ast.UnaryOp) and isinstance(t.op, ast.Not):
+                t = t.operand
+            isnone = isinstance(t, ast.Compare) and len(t.ops) == 1 and isinstance(t.ops[0], (ast.Is, ast.IsNot)) and \
+                isinstance(t.comparators[0], ast.Constant) and t.comparators[0].value is None
+            if isnone:
+                good += 1
+            else:
+                bad.append((e, f"`{short(e)}`: infinity chosen under `{short(e.test)}`, not under an `is None` test"))
+        elif isinstance(e, ast.If) and any(is_inf(x.value) for b in (e.body + e.orelse) for x in ast.walk(b)
+                                           if isinstance(x, (ast.Assign, ast.AugAssign)) and x.value is not None):
+            t = e.test
+            while isinstance(t, ast.UnaryOp) and isinstance(t.op, ast.Not):
+                t = t.operand
+            isnone = isinstance(t, ast.Compare) and len(t.ops) == 1 and isinstance(t.ops[0], (ast.Is, ast.IsNot, ast.Eq, ast.NotEq)) and \
+                isinstance(t.comparators[0], ast.Constant) and t.comparators[0].value is None
+            if isnone:
+                good += 1
+            else:
+                bad.append((e, f"infinity assigned under `{short(e.test)}`, not under an `is None` test"))
+    if not bad and not good:
+        raise AnalysisError("GETB: the conversion of the (min, max) pairs in get_bounds is not understood")
+    for e, why in bad:
+        obs.append(ob("GETB", "a side of the box becomes infinite only when it is None", f, e, False, why, construct=short(e, 60)))
+    if not bad:
+        obs.append(ob("GETB", "a side of the box becomes infinite only when it is None", f, rets[0], True,
+                      f"{good} conversion site(s), all under `is None` tests", construct="explicit conversion of the bounds"))
+    return obs
